@@ -201,6 +201,17 @@ Theorem C07_fixed_result_in_item_order : forall evs,
 Proof. exact fx_result_in_item_order. Qed.
 Print Assumptions C07_fixed_result_in_item_order.
 
+(* the fixed task cannot hang, and its capacity counter is exact, after any history of retries and reruns *)
+Theorem C07_fixed_no_stuck : forall evs, tst (run_fx evs) = TRunning ->
+  0 < running (execs (run_fx evs)) \/ jobs (run_fx evs) <> [].
+Proof. exact fx_no_stuck. Qed.
+Print Assumptions C07_fixed_no_stuck.
+
+Theorem C07_fixed_capacity_exact : forall evs c, tst (run_fx evs) = TRunning -> conc (run_fx evs) = Some c ->
+  exists k, cap (run_fx evs) = Some k /\ k + running (execs (run_fx evs)) + length (jobs (run_fx evs)) = c.
+Proof. exact fx_capacity_exact. Qed.
+Print Assumptions C07_fixed_capacity_exact.
+
 (* the two witnesses behave as the property demands under the fix *)
 Theorem C07_fixed_witnesses :
   started_by (run_fx witness_F4) (step_fx (run_fx witness_F4) (Rerun false)) = [0] /\
